@@ -43,6 +43,9 @@ func runConfig(prop, tier, goos, goarch string) *childOut {
 	c := &Ctx{Program: p, Prop: prop, Tier: tier}
 	props[prop].run(c)
 	out.Obs, out.Anchors, out.Notes = c.Obs, c.Anchors, c.Notes
+	if p.ConstBranches > 0 {
+		out.Notes = append(out.Notes, fmt.Sprintf("%s/%s: %d branch(es) on a constant condition; the side that can never run was removed from the flow graph before the rules ran", goos, goarch, p.ConstBranches))
+	}
 	out.Funcs, out.Blocks, out.Instrs = len(p.AllFns), p.Blocks, p.Instrs
 	return out
 }
